@@ -48,6 +48,7 @@ type c13Node struct {
 	Rel    string `json:"p"`           // relative to the case base directory
 	Size   int    `json:"n,omitempty"` // file size
 	Target string `json:"t,omitempty"` // symlink target string ({B} = base) / hardlink source rel
+	Salt   int    `json:"s,omitempty"` // shifts the byte pattern of a file, so that two files differ from the first byte on
 }
 
 type c13Case struct {
@@ -60,6 +61,8 @@ type c13Case struct {
 	// spelled-path cases (c13_spell.go, classes "spell:*", run in child processes)
 	Spell   string `json:"spell,omitempty"`   // template of the spelling of the first hosted directory, e.g. "S/..@D"
 	Collide bool   `json:"collide,omitempty"` // another given path carries the base name the spelled one denotes
+	// alias cases (c13_alias.go, classes "alias:*"): where the odd name and the entry it would alias were put
+	Alias string `json:"alias,omitempty"`
 }
 
 var c13PlainPool = []string{"a", "b", "c", "d", "f", "x", "y", "a.txt", "a-b", "a.b", "a b", "a+b", "a!", "a#",
@@ -235,6 +238,13 @@ var c13Classes = []c13ClassDef{
 	// yields the link, i.e. the recorded paths:symlink-dir-root input
 	{Key: "spell:symlinked-cwd", SampleQ: 12, SampleT: 48, Spell: true, Alias: map[string]string{"missing": "paths:symlink-dir-root"}},
 	{Key: "spell:fs-root", SampleQ: 8, SampleT: 64, Spell: true},
+	// names a layer might normalise, next to the entry they would then alias (c13_alias.go);
+	// every clean case also goes through the history stage (real sender, resolver installed)
+	{Key: "alias:backslash", SampleQ: 45, SampleT: 550},
+	{Key: "alias:whitespace", SampleQ: 70, SampleT: 700},
+	{Key: "alias:unicode-forms", SampleQ: 40, SampleT: 550},
+	{Key: "alias:case", SampleQ: 25, SampleT: 350},
+	{Key: "alias:trailing-dot", SampleQ: 25, SampleT: 300},
 }
 
 func c13Def(key string) c13ClassDef {
@@ -650,7 +660,7 @@ func c13Cases(e *Env) []c13Case {
 	var cases []c13Case
 	id := 0
 	for _, d := range c13Classes { // sampled classes: fixed number of witnesses
-		if d.Weight > 0 || d.Spell {
+		if d.Weight > 0 || d.Spell || c13IsAlias(d.Key) {
 			continue
 		}
 		for i := 0; i < e.Pick(d.SampleQ, d.SampleT); i++ {
@@ -685,7 +695,7 @@ func c13Cases(e *Env) []c13Case {
 			sid++
 		}
 	}
-	return cases
+	return append(cases, c13AliasCases(e)...)
 }
 
 // ---------------------------------------------------------------- materialise
@@ -706,7 +716,7 @@ func c13Materialize(base string, nodes []c13Node) error {
 		case "file":
 			buf := make([]byte, n.Size)
 			for i := range buf {
-				buf[i] = byte('a' + i%23)
+				buf[i] = byte('a' + (i+n.Salt)%23)
 			}
 			err = os.WriteFile(p, buf, 0644)
 		case "symlink":
@@ -1165,7 +1175,8 @@ func runC13(e *Env) {
 	e.R.Rule = "seeded cases: a directory tree materialised on disk (sort-hostile names, distinct mtimes) plus a path list, each with ONE feature class " +
 		"(plain nested / empty dirs / single files / unicode / hard links / ordinal-looking names / several paths / duplicate base names / same path twice / " +
 		"path and its subdirectory / trailing slashes / dot segments / '.' and relative paths / FIFO / socket / char device / symlinks to file, directory, nothing, a loop, " +
-		"in the tree or as the given path / a path literally named like an ordinal prefix); real ScanPaths+buildPathResolver (or Scan + root join) vs an independent " +
+		"in the tree or as the given path / a path literally named like an ordinal prefix / alias:* = a name some layer might normalise - backslash, leading or trailing white space, " +
+		"a Unicode normalisation or compatibility form, upper case, trailing dots - next to the entry it would then alias: as sibling files, alone, as two given paths, as one given path, as sibling directories); real ScanPaths+buildPathResolver (or Scan + root join) vs an independent " +
 		"ReadDir+Lstat walk; a case counts when scan, resolver lookups of every item and the walk completed on a non-rejected path list; distinct by (class, mode, tree, path list). " +
 		"Spelled paths (classes spell:*, child processes with their own working directory and $PWD, or a chroot): one hosted directory typed as . ./ ./. .. ../ S/.. N/. N/ ./N ../N, " +
 		"absolute with trailing slashes or dot segments, below a symlinked parent, as '.' in a directory entered through a link, as / . // in a chroot - each spelling round-robin, " +
@@ -1174,6 +1185,7 @@ func runC13(e *Env) {
 		"History stage: a hash-selected subset of the clean plain-entry cases is scanned once as the host does and that one manifest value is used for 2..3 real " +
 		"SendManifestMultiStream/RecvManifestMultiStream transfers (next receiver / resume reconnect into the same directory / concurrent receivers; mock or loopback QUIC); " +
 		"after every use: held manifest deep-equal to a pristine copy and to the announced id, manifest read by the receiver equal to it, output tree equal to the source; " +
+		"every clean alias:* case is taken through a history as well (the received bytes are the evidence of which file the real sender read for a listed name); " +
 		"a history counts when all its uses returned nil on both endpoints; distinct by (form, transport, k, class, mode, case)"
 
 	var mu sync.Mutex
@@ -1181,6 +1193,7 @@ func runC13(e *Env) {
 	special := map[string]int{}
 	failKeys := map[string]int{}
 	sampled := map[string]any{}
+	aliasPl := map[string]int{} // alias cases judged, by class/placement
 	spell := c13NewSpellAgg()
 	origWD, _ := os.Getwd()
 	hs, hserr := c13NewHistState()
@@ -1237,6 +1250,12 @@ func runC13(e *Env) {
 		e.R.CountN("items_listed", o.Items)
 		if c.Spell != "" {
 			c13SpellAccount(e, spell, c, o)
+		}
+		if c.Alias != "" {
+			mu.Lock()
+			aliasPl[c.Class+"/"+c.Alias]++
+			mu.Unlock()
+			e.R.Count("alias_cases_judged")
 		}
 		if len(o.Fails) == 0 {
 			// the history dimension (c13_history.go): the same scanned manifest
@@ -1324,7 +1343,7 @@ func runC13(e *Env) {
 
 	// samples: real cases with what was observed, clean classes first
 	for _, k := range []string{"paths:dup-basename", "spell:dot", "paths:same-path-twice", "entry:fifo", "spell:sub-dotdot", "paths:path-and-subdir",
-		"tree:unicode", "paths:literal-ordinal-prefix", "paths:dot", "entry:symlink-file"} {
+		"tree:unicode", "alias:whitespace", "alias:backslash", "paths:literal-ordinal-prefix", "paths:dot", "entry:symlink-file"} {
 		if s, ok := sampled[k]; ok {
 			e.R.Sample(s)
 		}
@@ -1353,6 +1372,7 @@ func runC13(e *Env) {
 	e.R.SetExtra("totals", tot)
 	e.R.SetExtra("special_entries_listed_by_kind", special)
 	e.R.SetExtra("failing_cases_by_key", failKeys)
+	e.R.SetExtra("alias_cases_by_class_and_placement", aliasPl)
 	vk.Logf("c13: %d cases (%d via Scan, %d rejected), walked %d files %d dirs %d other, %d items listed, %d resolver lookups, failing keys %v",
 		tot.Cases, tot.ScanMode, tot.Rejected, tot.Files, tot.Dirs, tot.Others, tot.Items, tot.Lookups, failKeys)
 
@@ -1369,6 +1389,12 @@ func runC13(e *Env) {
 		}
 		if d.Spell {
 			need = e.Pick(d.SampleQ, d.SampleT) * 3 / 4
+		}
+		if c13IsAlias(d.Key) {
+			need = e.Pick(d.SampleQ, d.SampleT) * 3 / 4
+			for _, pl := range c13AliasPlacements {
+				e.R.Require(aliasPl[d.Key+"/"+pl] > 0, fmt.Sprintf("feature class %s: no case with placement %s was judged", d.Key, pl))
+			}
 		}
 		e.R.Require(n >= need, fmt.Sprintf("feature class %s: only %d case(s) completed, need %d", d.Key, n, need))
 	}
